@@ -256,10 +256,12 @@ class Runner:
             # what the public accessors return at this answer
             gv = [engine.get_value(v) for v in self.qv[r]]
             o["gv"] = project_raw_tuple(gv)
-            try:
-                o["py"] = [py_image(engine.to_python(v)) for v in self.qv[r]]
-            except Exception as e:
-                o["py"] = [{"exception": type(e).__name__}]
+            o["py"] = []
+            for v in self.qv[r]:
+                try:
+                    o["py"].append(py_image(engine.to_python(v)))
+                except Exception as e:     # compared only where the specification defines to_python
+                    o["py"].append({"exception": type(e).__name__})
             self.saved.setdefault(r, []).append((gv, o["ans"], o["py"]))
         return o
 
